@@ -39,15 +39,15 @@ func init() {
 func runC17(c *Ctx) {
 	pkgs := append(c.libPkgs(), c.fixturePkg("n"))
 	c.runCumTab("CUMTAB", pkgs, nil)
-	c.floor("CUMTAB", 3)
+	c.floor("CUMTAB", 1)
 	c.runBest("BEST", pkgs, c.fileFilter("numerical/dense_search.go", "toolbox3d/min_max.go"))
 	c.floor("BEST.CMP", 8)
 	c.floor("BEST.RET", 6)
 	c.floor("BEST.NEG", 4)
 	c.runCongruent("CONGRUENT", pkgs, nil)
-	c.floor("CONGRUENT", 1)
+	c.floor("CONGRUENT", 0)
 	c.runIdxFloat("IDX.FLOAT", pkgs, c.fileFilter("model2d/curves.go", "model2d/bezier_fit.go"))
-	c.floor("IDX.FLOAT", 1)
+	c.floor("IDX.FLOAT", 0)
 	c.runUniform("UNIFORM", pkgs, func(name string) bool {
 		for _, suf := range []string{"numerical/vecs.go", "model2d/coords.go", "model3d/coords.go"} {
 			if strings.HasSuffix(name, suf) {
